@@ -846,6 +846,28 @@ func (x *EvalCtx) callExpr(n *ECall) Val {
 			x.strFacts(t)
 			return Val{T: strT, S: t}
 		}
+	case "nsx":
+		a := x.eval(n.Args[0])
+		x.s.declOrder()
+		t := app("nsx", a.S)
+		if !strings.Contains(t, "!q") {
+			tgt := x.factSink
+			if tgt == nil {
+				tgt = x.s
+			}
+			tgt.nsxBasics(a.S)
+		}
+		return Val{T: strT, S: t}
+	case "catNsx":
+		xs := x.eval(n.Args[0])
+		if kindOf(xs.T) != kSlice || xs.Sl == nil {
+			return x.fail("%s: not a slice", n.Fn)
+		}
+		x.s.declSums()
+		x.s.declOrder()
+		inner := x.s.strElems(xs.Sl.Base)
+		x.facts = append(x.facts, eq(app("scat_nsx", inner, xs.Sl.Off, xs.Sl.Off), "emp"))
+		return Val{T: strT, S: app("scat_nsx", inner, xs.Sl.Off, app("+", xs.Sl.Off, xs.Sl.Len))}
 	case "sumVlen", "sumNsc":
 		// the sum of a measure over the elements of a []string
 		xs := x.eval(n.Args[0])
